@@ -369,7 +369,7 @@ pub fn taint_info(c: &SemCase, flags: &[bool]) -> (bool, std::collections::BTree
 }
 
 pub fn gen_c07_case(t: &mut Tape) -> SemCase {
-    let late = t.chance(70);
+    let late = t.chance(110);
     gen_sem_case(t, SemOpts { components: true, data_params: true, late_facts: late, ..Default::default() })
 }
 
